@@ -1136,9 +1136,13 @@ def default_of(ex, ty):
     if h == 'tuple' and t == '()': return UNIT
     if h == 'Arc':
         return ArcV(Cell(default_of(ex, t[t.index('<') + 1:-1])))
-    if h == 'Range':
+    if h == 'Range' and '<' in t:
         inner = t[t.index('<') + 1:-1]
         return Struct('std::ops::Range', [Cell(default_of(ex, inner)), Cell(default_of(ex, inner))], ['start', 'end'])
+    full, info = ex.prog.struct_fields(strip_generics(t))
+    if info is not None and info[0] == 'named' and not any(getattr(tt, 'prefix', None) is None and full in tt.structs for tt in ex.prog.tt):
+        # plain data struct of an external crate (lsp-types): field-wise default
+        return Struct(full, [Cell(default_of(ex, fty)) for fn_, fty in info[1]], [fn_ for fn_, fty in info[1]])
     return ex.call('<%s as Default>::default' % t, [], ty)
 @tnative(('Default', 'default'))
 def _default(ex, c, a, dt):
@@ -1147,12 +1151,21 @@ def _default(ex, c, a, dt):
     if h in ('Vec', 'VecDeque', 'HashMap', 'BTreeMap', 'HashSet', 'BTreeSet', 'String', 'Option', 'bool', 'usize', 'u8', 'u16', 'u32',
              'u64', 'i32', 'i64', 'isize', 'Arc', 'tuple', 'Range'):
         return default_of(ex, t)
+    full, info = ex.prog.struct_fields(strip_generics(t))
+    if info is not None and info[0] == 'named':
+        return Struct(full, [Cell(default_of(ex, fty)) for fn_, fty in info[1]], [fn_ for fn_, fty in info[1]])
     raise Unsupported('Default for ' + str(t))
 
 @tnative(('From', 'from'), ('Into', 'into'))
 def _from(ex, c, a, dt):
     v = a[0]
     h = ty_head(dt or '')
+    cands = [e for e in ex.prog.impl_methods.get((h, 'from'), []) if e[0] == 'From']
+    if cands and c.method == 'into':
+        # a From impl of the crate under test (e.g. impl From<String> for Key): executed from MIR
+        want = '&str' if type(v) is Ref else 'String'
+        pick = [e for e in cands if want in e[1].raw[0]] or cands
+        return ex.run_fn(pick[0][1], [v])
     if h == 'String':
         return as_str(v) if not isinstance(v, int) else chr(v)
     if h in ('Vec',) and type(deref(v)) in (VecV, SliceV):
@@ -1168,7 +1181,7 @@ def _from(ex, c, a, dt):
         return cast_int(v, src, h)
     if h == 'Option':
         return SOME(v)
-    if h == 'PathBuf' or h == 'Cow':
+    if h in ('PathBuf', 'Cow', 'Number'):
         return v
     if h == ty_head(c.selfty or '') or dt is None:
         return v
@@ -1604,6 +1617,8 @@ def install(prog):
 def _arith(op):
     def f(ex, c, a, dt):
         x, y = deref(a[0]), deref(a[1])
+        if isinstance(x, str) and op == 'Add':
+            return x + as_str(y)            # String + &str
         ty = strip_generics(c.selfty or 'usize').lstrip('&').strip()
         from engine import ovfop
         if op in ('Add', 'Sub', 'Mul'):
@@ -1859,3 +1874,79 @@ def _str_get(ex, c, a, dt):
         return SOME(strref(s[lo:hi].decode()))
     except UnicodeDecodeError:
         return NONE()
+
+# ------------------------------------------------------------------ lsp-types / url / serde_json (handler-level harness)
+def URL(s):
+    return Struct('lsp_types::Url', [Cell(s)], ['serialization'])
+
+def url_str(v):
+    d = deref(v)
+    if type(d) is Struct and d.ty.endswith('Url'):
+        return d.f[0].v
+    raise Unsupported('expected Url, got %r' % (d,))
+
+@native(('Url', 'parse'))
+def _url_parse(ex, c, a, dt):
+    s = as_str(a[0])
+    if '://' not in s and not s.startswith(('file:', 'untitled:', 'mailto:')):
+        return ERR(Opaque('ParseError'))
+    return OK(URL(s))
+@native(('Url', 'join'))
+def _url_join(ex, c, a, dt):
+    from urllib.parse import urljoin, quote
+    base = url_str(a[0]); rel = as_str(a[1])
+    return OK(URL(urljoin(base, quote(rel, safe="/:@!$&'()*+,;=-._~%"))))
+@native(('Url', 'to_string'), ('Url', 'as_str'), ('Url', 'path'))
+def _url_to_string(ex, c, a, dt):
+    s = url_str(a[0])
+    if c.method == 'path':
+        from urllib.parse import urlparse
+        return strref(urlparse(s).path)
+    return s if c.method == 'to_string' else strref(s)
+@native(('Position', 'new'))
+def _lsp_position_new(ex, c, a, dt):
+    return Struct('lsp_types::Position', [Cell(a[0]), Cell(a[1])], ['line', 'character'])
+@native(('Range', 'new'))
+def _lsp_range_new(ex, c, a, dt):
+    return Struct('lsp_types::Range', [Cell(a[0]), Cell(a[1])], ['start', 'end'])
+@native(('Location', 'new'))
+def _lsp_location_new(ex, c, a, dt):
+    return Struct('lsp_types::Location', [Cell(a[0]), Cell(a[1])], ['uri', 'range'])
+@native(('Value', 'as_u64'))
+def _value_as_u64(ex, c, a, dt):
+    v = deref(a[0])
+    if type(v) is Enum and v.vn == 'Number':
+        n = v.f[0].v
+        return SOME(n) if (isinstance(n, int) and n >= 0) or is_sym(n) else NONE()
+    return NONE()
+@native(('*', 'to_value'), ('serde_json', 'to_value'), ('value', 'to_value'))
+def _to_value(ex, c, a, dt):
+    return OK(Opaque('JsonValue', a[0]))
+
+_orig_display = display
+def display(ex, v):
+    d = deref(v)
+    if type(d) is Struct and d.ty.endswith('Url'):
+        return d.f[0].v
+    return _orig_display(ex, v)
+
+_orig_arg_new = NATIVES[('Argument', 'new_display')]
+@native(('Argument', 'new_display'))
+def _arg_new2(ex, c, a, dt):
+    d = deref(a[0])
+    if type(d) is Opaque and d.tag == 'Blocks':
+        return Opaque('Argument', d)          # structure-valued "markdown" (to_markdown stub) passes through format!("{}", ..)
+    return _orig_arg_new(ex, c, a, dt)
+
+_orig_args_new = NATIVES[('Arguments', 'new')]
+@native(('Arguments', 'new_const'), ('Arguments', 'new_v1'), ('Arguments', 'new_v1_formatted'), ('Arguments', 'new'))
+def _args_new2(ex, c, a, dt):
+    if len(a) == 2:
+        try:
+            argv = [x.v for x in items(a[1])]
+        except Unsupported:
+            argv = []
+        blocks = [x.data for x in argv if type(x) is Opaque and type(x.data) is Opaque and x.data.tag == 'Blocks']
+        if blocks:
+            return Opaque('Arguments', blocks[-1])
+    return _orig_args_new(ex, c, a, dt)
